@@ -280,7 +280,7 @@ Theorem retry_converges_to_c01_spec : forall extra ch pub cfg w seg S0 L0 h ops 
   C1.chain_wf C1.EPrev extra ch = true -> in_range ch h -> L0 <= length ch ->
   Forall (in_range ch) S0 ->
   C1.c_strict cfg = true -> C1.c_hook cfg = C1.HNominate ->
-  C1.c_ads_depth cfg = 0%Z -> C1.c_first_depth cfg = 0%Z ->
+  C1.c_ads_depth cfg = 0%Z -> C1.c_first_depth cfg = 0%Z -> C1.c_lastknown cfg = None ->
   let sg := C1.segment ch (cid_of ch h) (stop_of ch L0) None in
   C1.avail pub (cids ch S0) sg = true ->
   let st1 := fst (C4.step C4.fx_fixed w seg r (C4.run C4.fx_fixed w seg ops (C4.init S0 L0))) in
